@@ -209,9 +209,9 @@ func TestVerifRecC11(t *testing.T) {
 		uniform(in)
 	}
 	// ---- group operations through the Ristretto wrappers, result encoded (agree with the reference definition)
-	ng := 4
+	ng := 11
 	if n > 1000 {
-		ng = 60
+		ng = 66
 	}
 	for i := 0; i < ng; i++ {
 		P, Q := rep(elem(), g.r.Intn(4), true), rep(elem(), g.r.Intn(4), true)
@@ -219,8 +219,57 @@ func TestVerifRecC11(t *testing.T) {
 		sa[31] &= 0x0f
 		sb[31] &= 0x0f
 		var o RistrettoPoint
-		kind := []string{"dsm", "msmvt", "mul", "addsub"}[i%4]
+		kinds := []string{"dsm", "msmvt", "mul", "addsub", "msm", "xdsm", "xmsmvt", "table", "sum", "select", "roundtrip"}
+		kind := kinds[i%len(kinds)]
 		switch kind {
+		case "msm":
+			o.MultiscalarMul([]*scalar.Scalar{vscalar(sa), vscalar(sb)}, []*RistrettoPoint{P, RISTRETTO_BASEPOINT_POINT})
+		case "xdsm": // precomputed form of the representative; Point() must give the same element back
+			x := NewExpandedRistrettoPoint(P)
+			o.ExpandedDoubleScalarMulBasepointVartime(vscalar(sa), x, vscalar(sb))
+			var back RistrettoPoint
+			back.SetExpanded(x)
+			if back.Equal(P) != 1 || x.Point().Equal(P) != 1 {
+				o.Identity()
+			}
+		case "xmsmvt": // [a]P static, [b]B dynamic
+			var x ExpandedRistrettoPoint
+			x.SetRistrettoPoint(P)
+			o.ExpandedMultiscalarMulVartime([]*scalar.Scalar{vscalar(sa)}, []*ExpandedRistrettoPoint{&x},
+				[]*scalar.Scalar{vscalar(sb)}, []*RistrettoPoint{RISTRETTO_BASEPOINT_POINT})
+		case "table": // a basepoint table built for P
+			tbl := NewRistrettoBasepointTable(P)
+			o.MulBasepoint(tbl, vscalar(sa))
+			var t2 RistrettoPoint
+			t2.MulBasepoint(RISTRETTO_BASEPOINT_TABLE, vscalar(sb))
+			o.Sum([]*RistrettoPoint{&o, &t2, tbl.Basepoint(), NewRistrettoPoint().Neg(P)})
+		case "sum":
+			var t1, t2, t3 RistrettoPoint
+			t1.Mul(P, vscalar(sa))
+			t2.Mul(RISTRETTO_BASEPOINT_POINT, vscalar(sb))
+			t3.Neg(Q)
+			o.Sum([]*RistrettoPoint{Q, &t1, &t3, &t2})
+		case "select":
+			var t1, t2 RistrettoPoint
+			t1.DoubleScalarMulBasepointVartime(vscalar(sa), P, vscalar(sb))
+			t2.Set(Q)
+			o.ConditionalSelect(&t2, &t1, 1)
+			var o2 RistrettoPoint
+			o2.ConditionalSelect(&t1, &t2, 0)
+			if o2.Equal(&o) != 1 {
+				o.Identity()
+			}
+		case "roundtrip": // compress, decompress, continue with the decoded representative
+			var t1 RistrettoPoint
+			t1.Mul(P, vscalar(sa))
+			var c CompressedRistretto
+			c.SetRistrettoPoint(&t1)
+			var t2, t3 RistrettoPoint
+			if _, err := t2.SetCompressed(&c); err != nil {
+				t2.Identity()
+			}
+			t3.MulBasepoint(RISTRETTO_BASEPOINT_TABLE, vscalar(sb))
+			o.Add(&t2, &t3)
 		case "dsm":
 			o.DoubleScalarMulBasepointVartime(vscalar(sa), P, vscalar(sb))
 		case "msmvt":
@@ -237,7 +286,6 @@ func TestVerifRecC11(t *testing.T) {
 			t2.Neg(&t2)
 			o.Sub(&o, &t2)
 		}
-		_ = Q
 		e := ev("rgroup")
 		e["kind"], e["a"], e["b"], e["P"] = kind, vb(sa), vb(sb), vpt(vev{}, &P.inner)
 		b, _ := o.MarshalBinary()
